@@ -79,6 +79,10 @@ def layouts(toks):
     yield " " + "".join(toks)          # leading whitespace is allowed, trailing is not written
     for g in range(len(toks) - 1):
         yield "".join(toks[:g + 1]) + "\n\t" + "".join(toks[g + 1:])
+    if len(toks) <= 7:
+        # every whitespace character RFC 8259 allows (blank, \t, \n, \r), one kind at every gap, and a mixture
+        for sep in ("\r", "\r\n", "\t", "\n", " \r\n\t"):
+            yield sep.join(toks)
 
 
 # ----------------------------------------------------------------------------- JSON mirrors
@@ -471,7 +475,11 @@ def _calc_chunk(payload):
     for optimised in (False, True):
         impls = load_calculators(optimised)
         for toks, want in keep:
-            for text in ("".join(toks), " ".join(toks)):
+            texts = ["".join(toks), " ".join(toks)]
+            if len(toks) <= 4:
+                # every whitespace character the calculator grammars define (blank, tab, NEWLINE = \n | \r\n | \r), one kind at every gap
+                texts += [sep.join(toks) for sep in ("\t", "\n", "\r\n", "\r", " \n\t ")] + ["\n" + "".join(toks) + "\r\n"]
+            for text in texts:
                 for name, f in impls.items():
                     stats["evaluations"] += 1
                     try:
@@ -528,9 +536,9 @@ def run(tier: str) -> int:
         "evaluations": agg.get("evaluations", 0),
         "distinct_nontrivial": agg.get("docs", 0) + agg.get("kept", 0),
         "rule": "JSON: all documents of a bounded generator (top level array or object, three nesting levels, width <= 2, scalars "
-                f"{SCALARS}) plus every string literal of up to 3 (thorough 4) pieces from {{a, blank, \\n, \\\", \\\\, é, \\u00e9, /, \\/, \\t, 0}} as array element, and up to 2 pieces as key and value and as two elements, in the layouts: no whitespace, one space at every gap, leading space, and each single gap set to newline+tab; both bundled JSON grammars x four modes; the tree must mirror json.loads, and parsing the same str object a second time on the same parser must give the same tree "
+                f"{SCALARS}) plus every string literal of up to 3 (thorough 4) pieces from {{a, blank, \\n, \\\", \\\\, é, \\u00e9, /, \\/, \\t, 0}} as array element, and up to 2 pieces as key and value and as two elements, in the layouts: no whitespace, one space at every gap, leading space, each single gap set to newline+tab, and (documents of up to 7 tokens) every gap set to \\r, \\r\\n, \\t, \\n and a mixture; both bundled JSON grammars x four modes; the tree must mirror json.loads, and parsing the same str object a second time on the same parser must give the same tree "
                 "(nesting, member order, float(number text) == value, json.loads(string pair text) == value) and, for the first two layouts, every proper prefix must be rejected. "
-                "Calculator: every well-formed token string -* T !* (op -* T !*)* with T an operand from {0,1,2,3,x} or a parenthesised expression, up to N tokens, in two layouts; an expression is kept only if EVERY bracketing of it "
+                "Calculator: every well-formed token string -* T !* (op -* T !*)* with T an operand from {0,1,2,3,x} or a parenthesised expression, up to N tokens, in two layouts (up to 4 tokens: also every gap set to tab, \\n, \\r\\n, \\r, a mixture, and line breaks around the expression); an expression is kept only if EVERY bracketing of it "
                 "evaluates without error and within 1e6 under an independent evaluator (so any tree an implementation builds is safe to evaluate); the three implementations, with parser modules generated in memory from the optimised and from the unoptimised grammar, "
                 "must return the value of an independent recursive-descent evaluator of the documented table (! > unary - > ^ right > * / left > + - left). distinct_nontrivial = documents + kept expressions",
         "samples": [{"json": '{"k":[1.5,{"k":"\\n"}]}'}, {"calculator": "-2^2!*3"}],
